@@ -7,6 +7,7 @@ package corr
 
 import (
 	"encoding/binary"
+	"errors"
 	"net"
 	"net/netip"
 	"os"
@@ -14,7 +15,19 @@ import (
 	"time"
 
 	"github.com/DataDog/datadog-traceroute/packets"
+
+	"verifharness/hx"
 )
+
+func init() {
+	// a runaway loop that the guards below had to stop and that no check attributed to a case
+	hx.BeforeWrite = func(r *hx.Report) {
+		for _, w := range takeRunaway() {
+			r.Violate(hx.Violation{Kind: "spec", NoInput: true, What: "a run had to be stopped by the simulated wire's runaway guard: " + w,
+				Sig: map[string]string{"defect": "runaway-loop"}, Replay: map[string]any{"guard": w}})
+		}
+	}
+}
 
 type bwPacket struct {
 	Data []byte
@@ -32,8 +45,60 @@ type bwSink struct {
 	OnWrite func(p bwPacket) // called outside the lock after a successful write
 }
 
+// errRunaway is returned by the simulated handles when a run keeps writing or reading far beyond
+// anything a traceroute can need (more than wireMaxWrites probes on one handle; wireMaxIdleReads
+// reads in a row that return at once because the deadline has already passed). It ends the run so
+// that the harness can report the runaway loop instead of hanging.
+var errRunaway = errors.New("verif: runaway loop on the simulated wire")
+
+const (
+	wireMaxWrites    = 1500
+	wireMaxIdleReads = 200000
+)
+
+var wireRunaway struct {
+	mu   sync.Mutex
+	what []string
+}
+
+func noteRunaway(what string) {
+	wireRunaway.mu.Lock()
+	if len(wireRunaway.what) < 8 {
+		wireRunaway.what = append(wireRunaway.what, what)
+	}
+	wireRunaway.mu.Unlock()
+}
+
+// runawayViolation reports, with the case at hand as the replay, what the guards saw since the last call.
+func runawayViolation(rep *hx.Report, sig map[string]string, replay map[string]any) bool {
+	w := takeRunaway()
+	if len(w) == 0 {
+		return false
+	}
+	s := map[string]string{"defect": "runaway-loop"}
+	for k, v := range sig {
+		s[k] = v
+	}
+	rep.Violate(hx.Violation{Kind: "spec", What: "the run did not stop by itself: the simulated wire's guard had to end it (" + w[0] + ")", Sig: s, Replay: replay})
+	return true
+}
+
+// takeRunaway returns and clears what the guards have seen since the last call.
+func takeRunaway() []string {
+	wireRunaway.mu.Lock()
+	defer wireRunaway.mu.Unlock()
+	w := wireRunaway.what
+	wireRunaway.what = nil
+	return w
+}
+
 func (s *bwSink) WriteTo(buf []byte, addr netip.AddrPort) error {
 	s.mu.Lock()
+	if len(s.pkts) >= wireMaxWrites {
+		s.mu.Unlock()
+		noteRunaway("more than 1500 probes written to one handle")
+		return errRunaway
+	}
 	if s.FailAt >= 0 && len(s.pkts) >= s.FailAt && s.FailErr != nil {
 		s.mu.Unlock()
 		return s.FailErr
@@ -76,6 +141,7 @@ type bwSource struct {
 	ReadErr     error
 	DeadlineErr error
 	Reads       int
+	idleReads   int // consecutive reads that returned at once with an expired deadline
 	// BeforeRead is called (outside the lock) at the start of every Read; it may Inject frames
 	BeforeRead func(src *bwSource)
 }
@@ -143,8 +209,19 @@ func (s *bwSource) Read(buf []byte) (int, error) {
 		if !dl.IsZero() {
 			wait := time.Until(dl)
 			if wait <= 0 {
+				s.mu.Lock()
+				s.idleReads++
+				n := s.idleReads
+				s.mu.Unlock()
+				if n > wireMaxIdleReads {
+					noteRunaway("more than 200000 reads in a row after the read deadline had passed")
+					return 0, errRunaway
+				}
 				return 0, os.ErrDeadlineExceeded
 			}
+			s.mu.Lock()
+			s.idleReads = 0
+			s.mu.Unlock()
 			tm := time.NewTimer(wait)
 			timer = tm.C
 			select {
